@@ -123,6 +123,13 @@ def payload_cases(ctx):
             continue
         s, d = ctx.rng.randrange(25), ctx.rng.randrange(2)
         out.append(('st %d %d hs %s' % (s, d, core.hexs(w.bytes())), 'hs', None))
+    # constructed ClientHellos (TlsClientHelloContents::new) in every state and direction: values no parser produces - a session
+    # id that is present but empty, an extension block present but empty - exhaustive over (state, direction, shapes)
+    for s in range(25):
+        for d in (0, 1):
+            for sid in ('none', '-', '00', core.hexs(ctx.rng.randbytes(32)), core.hexs(ctx.rng.randbytes(33))):
+                for ext in ('none', '-', '002b0000'):
+                    out.append(('st %d %d chnew %s %s' % (s, d, sid, ext), 'chnew', None))
     return out
 
 
